@@ -28,6 +28,19 @@ def gen_labels(rng, max_total=255):
         return []
     if k == 1:
         return [b"example", b"com"]
+    if k == 2 and max_total >= 255:
+        # boundary: encoded name (length bytes + labels + root) of exactly 253 / 254 / 255 bytes
+        want = rng.choice([253, 254, 255, 255]) - 1
+        labels = []
+        while want > 0:
+            ll = min(want - 1, rng.choice([63, 63, 62, 10, 1, rng.randrange(1, 64)]))
+            if want - 1 - ll == 1:          # would leave room for a length byte without a label byte
+                ll -= 1
+            if ll <= 0:
+                break
+            labels.append(bytes(rng.choice(b"abcdefghijklmnopqrstuvwxyz0123456789-") for _ in range(ll)))
+            want -= 1 + ll
+        return labels
     labels, total = [], 1
     n = rng.choice([1, 2, 3, 4, 8, 20, 127])
     for _ in range(n):
